@@ -100,6 +100,10 @@ pub fn enabled<P: Proto>(w: &ClientWorld<P>, cfg: &Cfg) -> Vec<(CAct, u8)> {
                         }
                         v.push((CAct::B(Pk::PubRel(1, 0)), 0));
                         v.push((CAct::B(Pk::PubRel(2, 0)), 0));
+                        if cfg.v5 {
+                            // a release that carries a reason code other than success
+                            v.push((CAct::B(Pk::PubRel(1, 0x92)), 0));
+                        }
                         v.push((CAct::B(Pk::PingResp), 0));
                         v.push((CAct::B(Pk::SubAck(1)), 0));
                         v.push((CAct::B(Pk::UnsubAck(1)), 0));
